@@ -168,8 +168,13 @@ class C16Monitor(X.Monitor):
                         devkit = expected_tracked(a, i, samples)
                         if len(path) != len(devkit):
                             ctx.probe("c16_tracked_window_differs_from_devkit")
-                        if not path and prev_idx and prev_idx[0] == i - 1 and (s["t"] - samples[i - 1]["t"]) < 3_000_000:
-                            ctx.violate("C16", "tracked_path", "empty tracked path although the instance was annotated in the sample before", {"frame": i})
+                        # (the documented history window is 3 s: an earlier annotation at most 2.5 s old is inside any reading of it,
+                        # whether or not the instance was visible in the sample directly before)
+                        if not path and prev_idx and (s["t"] - samples[prev_idx[0]]["t"]) < 2_500_000:
+                            ctx.violate("C16", "tracked_path", "empty tracked path although the instance was annotated %.2f s earlier" %
+                                        ((s["t"] - samples[prev_idx[0]]["t"]) / 1e6), {"frame": i, "last_seen": prev_idx[0]})
+                            if prev_idx[0] != i - 1:
+                                ctx.probe("c16_reappearing_instance_judged")
                         if path:
                             ctx.probe("c16_tracked_states", len(path))
                         for stt, k in zip(path, prev_idx):
